@@ -91,6 +91,58 @@ func runConv(seed uint64, n int, outDir string, replay string) {
 					o.Violate("c20-roundtrip-gains:quai", fmt.Sprintf("Quai %s -> Qi %s -> Quai %s", x, b, back))
 				}
 			}
+			// conversion volume of a prime block: every conversion at the block's rate, which is read at the block's
+			// *miner* difficulty (the long-term average), not at its own difficulty
+			{
+				minerDiff := new(big.Int).Lsh(big.NewInt(int64(1+rc.Intn(1000))), uint(10+rc.Intn(60)))
+				if min := new(big.Int).SetUint64(2 * params.KQuaiDifficultyDivisor); ptn >= params.KQuaiResetAfterKawPowForkBlock && minerDiff.Cmp(min) < 0 {
+					minerDiff = min
+				}
+				if rc.Chance(20) {
+					minerDiff = new(big.Int).Set(diff)
+				}
+				vwo := types.CopyWorkObject(wo)
+				vwo.Header().SetExchangeRate(rate)
+				vwo.Header().SetMinerDifficulty(minerDiff)
+				vq, vu := misc.CalculateQuaiReward(wh, minerDiff, rate), misc.CalculateQiReward(wh, minerDiff)
+				var etxs types.Transactions
+				var items []string
+				freshAddr := func(zone byte, qi bool) []byte {
+					b := rc.Bytes(20)
+					b[0] = zone
+					if qi {
+						b[1] |= 0x80
+					} else {
+						b[1] &= 0x7f
+					}
+					return b
+				}
+				for k, nk := 0, rc.Intn(7); k < nk; k++ {
+					v := cvAmount(rc)
+					if rc.Chance(10) {
+						v = new(big.Int)
+					}
+					var to common.Address
+					typ := uint64(types.ConversionType)
+					switch rc.Intn(5) {
+					case 0, 1:
+						to = common.BytesToAddress(freshAddr(0x00, true), loc)
+						items = append(items, "q:"+v.String())
+					case 2, 3:
+						to = common.BytesToAddress(freshAddr(0x00, false), loc)
+						items = append(items, "u:"+v.String())
+					default:
+						to = common.BytesToAddress(freshAddr(0x00, rc.Bool()), loc)
+						typ = uint64([]int{types.DefaultType, types.CoinbaseType, types.ConversionRevertType}[rc.Intn(3)])
+						items = append(items, "n")
+					}
+					etxs = append(etxs, types.NewTx(&types.ExternalTx{OriginatingTxHash: cHash(rc), ETXIndex: uint16(k), Gas: 21000, To: &to, Value: v, Sender: cAddr(rc, loc), EtxType: typ}))
+				}
+				if vq.Sign() > 0 && vu.Sign() > 0 {
+					o.Op("%s", strings.TrimSpace(fmt.Sprintf("vol %s %s %s", vq, vu, strings.Join(items, " "))))
+					ans(misc.ComputeConversionAmountInQuai(vwo, etxs).String())
+				}
+			}
 			// denominations
 			for i := 0; i < 4; i++ {
 				v := cvAmount(rc)
